@@ -3,3 +3,5 @@ import SemverProofs.GenEquiv.Version
 import SemverProofs.GenEquiv.Bound
 import SemverProofs.GenEquiv.Range
 import SemverProofs.GenEquiv.Tables
+import SemverProofs.GenEquiv.VersionParse
+import SemverProofs.GenEquiv.RangeParse
